@@ -363,16 +363,23 @@ where
         let welcome_preview = self.preview_welcome(&welcome.wrapper_event_id, &welcome.event)?;
         let mls_group = welcome_preview.staged_welcome.into_group(&self.provider)?;
 
-        // Update the welcome to accepted
-        let mut welcome = welcome.clone();
-        welcome.state = welcome_types::WelcomeState::Accepted;
-        self.storage()
-            .save_welcome(welcome)
-            .map_err(|e| Error::Welcome(e.to_string()))?;
-
         // Update the group to active
         if let Some(mut group) = self.get_group(&mls_group.group_id().into())? {
             let mls_group_id = group.mls_group_id.clone();
+            let group_data = welcome_preview.nostr_group_data;
+
+            // The pending record was written when *some* invitation for this group id was
+            // processed - possibly another one than the one being accepted now. Make the
+            // record describe the group that was actually joined, in the same single write
+            // that activates it (so a refused write leaves nothing half-activated).
+            group.epoch = mls_group.epoch().as_u64();
+            group.nostr_group_id = group_data.nostr_group_id;
+            group.name = group_data.name;
+            group.description = group_data.description;
+            group.admin_pubkeys = group_data.admins;
+            group.image_hash = group_data.image_hash;
+            group.image_key = group_data.image_key.map(mdk_storage_traits::Secret::new);
+            group.image_nonce = group_data.image_nonce.map(mdk_storage_traits::Secret::new);
 
             // Update group state
             group.state = group_types::GroupState::Active;
@@ -386,9 +393,16 @@ where
 
             // Save the group relays after saving the group
             self.storage()
-                .replace_group_relays(&mls_group_id, welcome_preview.nostr_group_data.relays)
+                .replace_group_relays(&mls_group_id, group_data.relays)
                 .map_err(|e| Error::Group(e.to_string()))?;
         }
+
+        // Update the welcome to accepted (only once the group is in place)
+        let mut welcome = welcome.clone();
+        welcome.state = welcome_types::WelcomeState::Accepted;
+        self.storage()
+            .save_welcome(welcome)
+            .map_err(|e| Error::Welcome(e.to_string()))?;
 
         Ok(())
     }
